@@ -74,6 +74,8 @@ type stepT struct {
 	Op    int    `json:"op"`
 	Arg   int    `json:"arg"`
 	Delay int    `json:"delay"`
+	Src   string `json:"src"`  // "fresh" | "held": where the written message of a plain write comes from
+	Pick  int    `json:"pick"` // which held message
 }
 type walkT struct {
 	N     int     `json:"n"`
@@ -250,6 +252,7 @@ func runWalk(tg target, w walkT, out *hx.Out) {
 		doing.Store(tg.name, fmt.Sprintf("walk %d step %d op %s", w.N, step, o.name))
 		lastProgress.Store(time.Now().UnixNano())
 		e.r = rand.New(rand.NewSource(base + int64(st.Arg)*31 + int64(step)))
+		e.held, e.heldPick = st.Src == "held", st.Pick
 		t.mu.Lock()
 		t.opName, t.nin, t.nout, t.curIn = o.name, 0, 0, nil
 		t.mu.Unlock()
